@@ -25,31 +25,28 @@ def readFixed64 : List UInt8 → Option (UInt64 × List UInt8)
 def takeExact (n : Nat) (l : List UInt8) : Option (List UInt8 × List UInt8) :=
   if n ≤ l.length then some (l.take n, l.drop n) else none
 
-mutual
-/-- decode the fields of a message of type `name` from exactly these bytes;
-    `d` bounds the nesting depth, `fuel` the number of fields -/
-def decMsg (sch : List (String × List SField)) : Nat → Nat → String → List UInt8 → Option Fields
-  | _, 0, _, _ => none
-  | _, _ + 1, _, [] => some []
-  | d, fuel + 1, name, bytes =>
-    match lookupMsg sch name with
+/-- the field loop of one message body, given the decoder `decP` of a field's payload:
+    tag, schema lookup by field number, wire-type check, payload, repeat until the bytes are used up -/
+def decFields (decP : SField → List UInt8 → Option (PVal × List UInt8)) (sfs : List SField) :
+    Nat → List UInt8 → Option Fields
+  | 0, _ => none
+  | _ + 1, [] => some []
+  | fuel + 1, bytes =>
+    match readVarint 10 bytes with
     | none => none
-    | some sfs =>
-      match readVarint 10 bytes with
-      | none => none
-      | some (t, r) =>
-        let num := t / 8
-        let wt := t % 8
-        match sfs.find? (·.num == num) with
-        | none => none                                    -- a field the schema does not declare
-        | some sf =>
-          if wt != wireType sf.kind then none else
-          match decPayload sch d sf r with
+    | some (t, r) =>
+      match sfs.find? (·.num == t / 8) with
+      | none => none                                    -- a field the schema does not declare
+      | some sf =>
+        if t % 8 != wireType sf.kind then none else
+        match decP sf r with
+        | none => none
+        | some (v, r') =>
+          match decFields decP sfs fuel r' with
+          | some rest => some ((sf.name, v) :: rest)
           | none => none
-          | some (v, r') =>
-            match decMsg sch d fuel name r' with
-            | some rest => some ((sf.name, v) :: rest)
-            | none => none
+
+/-- payload of one field at nesting depth `d` -/
 def decPayload (sch : List (String × List SField)) : Nat → SField → List UInt8 → Option (PVal × List UInt8)
   | d, sf, r =>
     match sf.kind with
@@ -62,13 +59,20 @@ def decPayload (sch : List (String × List SField)) : Nat → SField → List UI
     | .enum _ => (readVarint 10 r).map fun (v, r1) => (.enum v.toUInt64, r1)
     | .msg sub => match d with
       | 0 => none
-      | d' + 1 => match readVarint 10 r with
-        | some (len, r1) => match takeExact len r1 with
-          | some (body, r2) => (decMsg sch d' (body.length + 1) sub body).map fun fs => (.msg fs, r2)
-          | none => none
+      | d' + 1 => match lookupMsg sch sub with
         | none => none
+        | some sfs => match readVarint 10 r with
+          | some (len, r1) => match takeExact len r1 with
+            | some (body, r2) => (decFields (decPayload sch d') sfs (body.length + 1) body).map fun fs => (.msg fs, r2)
+            | none => none
+          | none => none
     | .unknown _ => none
-end
+
+/-- decode the fields of a message of type `name` from exactly these bytes -/
+def decMsg (sch : List (String × List SField)) (d fuel : Nat) (name : String) (bytes : List UInt8) : Option Fields :=
+  match lookupMsg sch name with
+  | none => none
+  | some sfs => decFields (decPayload sch d) sfs fuel bytes
 
 /-- a stream of length-delimited `MetricFamily` messages, consumed completely -/
 def decStream (sch : List (String × List SField)) : Nat → List UInt8 → Option (List Fields)
